@@ -147,6 +147,7 @@ def run(ctx: Ctx, driver: Driver):
     tmpdir = tempfile.mkdtemp(prefix="c20_", dir="/tmp")
     try:
         save_crash(ctx, driver, rng, loop, tmpdir)
+        real_fs_histories(ctx, rng, loop, tmpdir)
         entity_roundtrip(ctx, rng)
         cache_prefixes(ctx, rng, tmpdir)
     finally:
@@ -160,6 +161,64 @@ def load_pairings(loop, path):
         c.load_data(path)
         return {alias: dict(p.pairing_data) for alias, p in c.aliases.items()}
     return loop.run_until_complete(go())
+
+
+def real_fs_histories(ctx, rng, loop, tmpdir):
+    """histories on the REAL file system (nothing patched): a save that was interrupted earlier left files behind
+    (<file>.tmp of any length and content, <file>.bak, a zero-length <file>.tmp); the next complete save must still
+    produce exactly the new pairing set, and a restart must read it back"""
+    target = os.path.join(tmpdir, "pairings.json")
+    sets = list(pairing_sets(rng))
+
+    async def build(pairs):
+        c = mk_controller(loop)
+        for alias, pd in pairs.items():
+            c.load_pairing(alias, dict(pd))
+        return c
+    pairs = [(a, b) for a in sets for b in sets if a[0] != b[0]]
+    rng.shuffle(pairs)
+    n = 0
+    for (oname, old), (nname, new) in pairs[: ctx.budget(10, 60)]:
+        for f in os.listdir(tmpdir):
+            os.unlink(os.path.join(tmpdir, f))
+        c_old = loop.run_until_complete(build(old))
+        c_old.save_data(target)
+        with builtins.open(target, "rb") as fp:
+            old_bytes = fp.read()
+        # leftovers of an interrupted save: usually LONGER than what the next save will write
+        c_big = loop.run_until_complete(build({**old, **new, "zz-extra": list(old.values())[0] if old else list(new.values())[0]}))
+        big_path = os.path.join(tmpdir, "big.json")
+        c_big.save_data(big_path)
+        with builtins.open(big_path, "rb") as fp:
+            big = fp.read()
+        os.unlink(big_path)
+        for f in os.listdir(tmpdir):
+            if f not in ("pairings.json",):
+                os.unlink(os.path.join(tmpdir, f))
+        leftover = rng.choice(["long", "long-prefix", "empty", "garbage"])
+        stale = {"long": big, "long-prefix": big[: max(len(big) - rng.randrange(1, 40), 1)], "empty": b"", "garbage": bytes(rng.randrange(256) for _ in range(len(big) + 50))}[leftover]
+        for suffix in (".tmp", ".new", ".bak", "~"):
+            with builtins.open(target + suffix, "wb") as fp:
+                fp.write(stale)
+        c_new = loop.run_until_complete(build(new))
+        case = {"stream": "real-fs", "old": oname, "new": nname, "leftover": leftover}
+        ctx.evaluations += 1
+        n += 1
+        ctx.nontrivial.add(("real-fs", oname, nname, leftover))
+        try:
+            c_new.save_data(target)
+        except Exception as e:  # noqa: BLE001
+            ctx.violation("save/leftover-save-raises", f"saving '{nname}' over '{oname}' with a stale temporary file ({leftover}) raised {type(e).__name__}", case)
+            continue
+        try:
+            got = load_pairings(loop, target)
+        except Exception as e:  # noqa: BLE001
+            ctx.violation("save/leftover-unloadable", f"after saving '{nname}' over '{oname}' with a stale temporary file ({leftover}, {len(stale)} bytes) the pairing file cannot be loaded: {type(e).__name__}", case)
+            continue
+        want = {a: {**pd, "Connection": pd.get("Connection", "IP")} for a, pd in new.items()}
+        if got != want:
+            ctx.violation("save/leftover-lost-data", f"after saving '{nname}' over '{oname}' with a stale temporary file ({leftover}) a restart reads {sorted(got)} instead of {sorted(want)}", case)
+    ctx.dist["real-fs-histories"] += n
 
 
 def save_crash(ctx, driver, rng, loop, tmpdir):
